@@ -532,6 +532,10 @@ def load_database(dbpath, rootdir):
                     os.path.join(rootdir, command.directory),
                 )
 
+        # A compiler resolves ".." from the real location of its working
+        # directory, which may have been reached through a symbolic link.
+        filedir = os.path.realpath(filedir)
+
         if os.path.isabs(command.filename):
             path = os.path.abspath(command.filename)
         else:
